@@ -144,6 +144,28 @@ fn vp_native_text_helpers_decode_whole_body() {
             assert_eq!(t3, String::from_utf8_lossy(&body), "text_utf8() of {:?}", body);
         }
     } } }
+    // precedence through the public builders: charset of the header when known, else the default configured on the session or
+    // on the request (the request wins over its session), else Windows-1252; text_with / text_utf8 ignore all of it
+    let body: &[u8] = b"\xC1\xE2\xE5 caf\xE9 \x82\xA0";
+    for header in [None, Some("koi8-r"), Some("Shift_JIS"), Some("no-such-charset")] { for sdef in [None, Some(charsets::KOI8_R), Some(charsets::WINDOWS_1251)] { for rdef in [None, Some(Some(charsets::ISO_8859_2)), Some(None)] {
+        let mut s = crate::Session::new(); s.default_charset(sdef);
+        let mut b = s.get("http://a.test/");
+        if let Some(r) = rdef { b = b.default_charset(r); }
+        let req = b.prepare();
+        let ct = match header { Some(h) => format!("Content-Type: text/plain; charset={}\r\n", h), None => String::new() };
+        let mk = || { let mut w = format!("HTTP/1.1 200 OK\r\n{}Content-Length: {}\r\n\r\n", ct, body.len()).into_bytes(); w.extend_from_slice(body); w };
+        let configured = match rdef { Some(r) => r, None => sdef };
+        let want_cs = header.and_then(|h| Encoding::for_label(h.as_bytes())).or(configured).unwrap_or(charsets::WINDOWS_1252);
+        let t = parse_response(BaseStream::mock(mk()), &req, req.url()).unwrap().text().unwrap(); cases += 1;
+        assert_eq!(t, want_cs.decode_without_bom_handling(body).0, "text(): header {:?} session default {:?} request default {:?}", header, sdef.map(|c| c.name()), rdef.map(|r| r.map(|c| c.name())));
+        let t2 = parse_response(BaseStream::mock(mk()), &req, req.url()).unwrap().text_with(charsets::WINDOWS_1251).unwrap();
+        assert_eq!(t2, charsets::WINDOWS_1251.decode_without_bom_handling(body).0, "text_with() ignores header and defaults");
+        let t3 = parse_response(BaseStream::mock(mk()), &req, req.url()).unwrap().text_utf8().unwrap();
+        assert_eq!(t3, String::from_utf8_lossy(body), "text_utf8() ignores header and defaults");
+        let mut tr = parse_response(BaseStream::mock(mk()), &req, req.url()).unwrap().text_reader(); let mut t4 = String::new();
+        tr.read_to_string(&mut t4).unwrap();
+        assert_eq!(t4, want_cs.decode_without_bom_handling(body).0, "text_reader(): header {:?}", header);
+    } } }
     // long bodies: multi-byte sequences (2, 3 and 4 bytes) straddle every internal read boundary at every alignment, and every
     // 8 KiB stretch also holds a malformed byte; the result must be the whole-body lossy decoding
     let unit = "日本語é😀".as_bytes();
